@@ -516,3 +516,5 @@ add('C06', 'alpha-table-at-class-level', PARS, [("class PCFGPasswordParser:\n", 
 GEN1 = "            if skip_brute:\n                for value in file:\n                    # Split up the tab seperated items and then save their values\n                    split_values = value.rstrip().split(\"\\t\")\n"
 GEN2 = "            for value in file:\n\n                # Split up the tab seperated items and then save their values\n                split_values = value.rstrip().split(\"\\t\")\n"
 add('C14', 'one-generator-for-both-passes', GIO, [(GEN1, "            entries = (line.rstrip().split(\"\\t\") for line in file)\n            if skip_brute:\n                for split_values in entries:\n"), (GEN2, "            for split_values in entries:\n")], None, 'fire', 'C14.R15')
+add('C11', 'window-slice-one-minus-n', GSF, GS_IP, "                    new_ip = last_item[0][1 - self.ip_length:] + self.cp[last_item[0]][depth_level][last_item[2]]", 'fire', 'C11.R14')
+add('C11', 'popped-level-read-at-loop-head', GSF, "            # Simplifying some of the code by assigning this pointer\n            last_item = self.parse_tree[-1]\n", "            req_level += element[1] - element[1]\n            # Simplifying some of the code by assigning this pointer\n            last_item = self.parse_tree[-1]\n", 'fire', 'C11.R15')
